@@ -1103,33 +1103,41 @@ func (c *dtChannel) gsDataRequestRcvd(requestID graphsync.RequestID, hookActions
 	c.isOpen = true
 }
 
+// Note: pause and resume must not hold the lock while they call into
+// graphsync: Pause / Unpause of a response return when the run loop of
+// graphsync's response manager has served them, and that loop also runs the
+// hooks and listeners that take the lock (incoming request, requestor
+// cancelled).
 func (c *dtChannel) pause(ctx context.Context) error {
 	c.lk.Lock()
-	defer c.lk.Unlock()
 
 	// Check if the channel was already cancelled
 	if c.requestID == nil {
+		c.lk.Unlock()
 		log.Debugf("%s: channel was cancelled so not pausing channel", c.channelID)
 		return nil
 	}
 
 	// If the requester cancelled, bail out
 	if c.requesterCancelled.Load() {
+		c.lk.Unlock()
 		log.Debugf("%s: requester has cancelled so not pausing response", c.channelID)
 		return nil
 	}
+	requestID := *c.requestID
+	c.lk.Unlock()
 
 	// Pause the response
 	log.Debugf("%s: pausing response", c.channelID)
-	return c.t.gs.Pause(ctx, *c.requestID)
+	return c.t.gs.Pause(ctx, requestID)
 }
 
 func (c *dtChannel) resume(ctx context.Context, msg datatransfer.Message) error {
 	c.lk.Lock()
-	defer c.lk.Unlock()
 
 	// Check if the channel was already cancelled
 	if c.requestID == nil {
+		c.lk.Unlock()
 		log.Debugf("%s: channel was cancelled so not resuming channel", c.channelID)
 		return nil
 	}
@@ -1139,6 +1147,7 @@ func (c *dtChannel) resume(ctx context.Context, msg datatransfer.Message) error 
 		var err error
 		extensions, err = extension.ToExtensionData(msg, c.t.supportedExtensions)
 		if err != nil {
+			c.lk.Unlock()
 			return err
 		}
 	}
@@ -1149,6 +1158,7 @@ func (c *dtChannel) resume(ctx context.Context, msg datatransfer.Message) error 
 		// remote peer. We're not sending any message now, so instead queue up
 		// the message to be sent next time the peer makes a request to us.
 		c.pendingExtensions = append(c.pendingExtensions, extensions...)
+		c.lk.Unlock()
 
 		log.Debugf("%s: requester has cancelled so not unpausing response", c.channelID)
 		return nil
@@ -1156,9 +1166,11 @@ func (c *dtChannel) resume(ctx context.Context, msg datatransfer.Message) error 
 
 	// Record that the transfer has started
 	c.xferStarted = true
+	requestID := *c.requestID
+	c.lk.Unlock()
 
 	log.Debugf("%s: unpausing response", c.channelID)
-	return c.t.gs.Unpause(ctx, *c.requestID, extensions...)
+	return c.t.gs.Unpause(ctx, requestID, extensions...)
 }
 
 func (c *dtChannel) close(ctx context.Context) error {
